@@ -19,7 +19,7 @@ RULE = ("seeded products with random content in every record, all levels (1.1 / 
         "plus distinct (node depth, dtype kind) pairs seen")
 ASSUMPTIONS = ["allowed attribute leaves: Python int/float/bool/str/None and numpy scalars of kind b/i/u/f/c/U",
                "byte order is not part of dtype equality"]
-REQUIRED_OBS = ["variables_checked", "attrs_checked", "selections_checked", "repr_ok", "trees_via_cache", "tall_images"]
+REQUIRED_OBS = ["variables_checked", "attrs_checked", "selections_checked", "repr_ok", "trees_via_cache", "tall_images", "trees_from_creating_open"]
 
 N = {"quick": 200, "thorough": 5000}
 NSEL = {"quick": 25, "thorough": 120}
@@ -72,10 +72,15 @@ def run_case(i, tier, seed):
 
                 from vf import cachelib
 
-                harness.open_tree(url, use_cache=False, create_cache=True, records_per_chunk=rng.choice([1, 4, 1024]))
+                rpc_c = rng.choice([1, 4, 1024])
+                creating = harness.open_tree(url, use_cache=False, create_cache=True, records_per_chunk=rpc_c)
                 if all(os.path.isfile(cachelib.user_cache_file(url, n)) for n in info["names"]["imgs"]):
                     obs["trees_via_cache"] = 1
-                tree = harness.open_tree(url, use_cache=True, records_per_chunk=rpc)
+                if i % 4 == 3:
+                    tree, rpc = creating, rpc_c  # the tree handed out by the very open that wrote the caches
+                    obs["trees_from_creating_open"] = 1
+                else:
+                    tree = harness.open_tree(url, use_cache=True, records_per_chunk=rpc)
             else:
                 tree = harness.open_tree(url, use_cache=False, records_per_chunk=rpc)
         except Exception as e:
